@@ -31,6 +31,9 @@ def install(reg):
             return interp.native(torch.arange, *a, **kw)
         if len(a) != 1:
             raise OutOfSubset("torch.arange(start, stop) with symbolic bounds")
+        # torch.arange(n) with n < 0 raises RuntimeError (numpy returns an empty array) (engine self-test: t_arange_symbolic)
+        if isinstance(a[0], Sym) and a[0].is_int and interp.ctx.branch(a[0].t < 0):
+            raise RaiseSig(RuntimeError("upper bound and lower bound inconsistent with step sign"))
         return tensor((V.smax(0, a[0]),), lambda i: Sym(i), "int")
 
     M[torch.arange] = m_arange
@@ -41,6 +44,10 @@ def install(reg):
             if not contains_sym(shape):
                 f = torch.zeros if val == 0 else torch.ones
                 return interp.native(f, *a, dtype=dtype, device=device, **kw)
+            # a negative extent raises RuntimeError in torch (engine self-test: t_zeros_ones_symbolic)
+            for d_ in shape:
+                if isinstance(d_, Sym) and d_.is_int and interp.ctx.branch(d_.t < 0):
+                    raise RaiseSig(RuntimeError("Trying to create tensor with negative dimension"))
             kind = "int" if dtype in (torch.int32, torch.int64, torch.long, torch.int) else "bool" if dtype is torch.bool else kind_default
             v = (False if val == 0 else True) if kind == "bool" else (val if kind == "int" else float(val))
             return tensor(shape, lambda *i: v, kind)
